@@ -277,6 +277,11 @@ func Edits(d *Dialect) []Edit {
 			p := I(T(s, "t"), "idx_ab").Parts[1]
 			p.C, p.X = nil, &schema.RawExpr{X: "(a + 1)"}
 		}, []string{mt("ModifyIndex(idx_ab)[parts]")}},
+		// an index part that is an expression and descending at the same time.
+		{"index_part_to_expr_desc", []string{"idx:idx_ab"}, func(s *schema.Schema) {
+			p := I(T(s, "t"), "idx_ab").Parts[1]
+			p.C, p.X, p.Desc = nil, &schema.RawExpr{X: "(a + 1)"}, true
+		}, []string{mt("ModifyIndex(idx_ab)[parts]")}},
 		{"pk_dropped", []string{"pk"}, func(s *schema.Schema) { T(s, "t").PrimaryKey = nil }, []string{mt("DropPrimaryKey")}},
 		{"pk_parts", []string{"pk"}, func(s *schema.Schema) {
 			t := T(s, "t")
